@@ -153,6 +153,9 @@ class Def:
         return f"Def#{self.id}({self.kind}@bb{self.bid}[{self.idx}] -> {self.target})"
 
 
+_REF_ACCESSORS = ('as_mut', 'as_ref', 'as_deref_mut', 'as_deref', 'unwrap', 'expect', 'unwrap_unchecked')
+
+
 class Fn:
     def __init__(self, d, crate=None):
         self.d = d
@@ -451,6 +454,7 @@ class Fn:
             return self._refmap
         ndefs = defaultdict(int)
         rv_of = {}
+        opt_of, unwrap_of = {}, {}
         for bid, b in self.blocks.items():
             for i, st in enumerate(b['stmts']):
                 if st['k'] == 'assign' and not st['place']['proj']:
@@ -459,7 +463,17 @@ class Fn:
                     rv_of[l] = st['rv']
             t = b['term']
             if t and t['k'] == 'call' and not t['dest']['proj']:
-                ndefs[t['dest']['local']] += 2  # calls never alias-resolve
+                ndefs[t['dest']['local']] += 2  # calls never alias-resolve as such ...
+                c = self.callee(t) or ''
+                a0 = op_place(t['args'][0]) if t['args'] else None
+                m = c.rsplit('::', 1)[-1]
+                if c.startswith('std::option::Option::<') and a0 is not None and not a0['proj']:
+                    # ... except the plumbing of Option<&mut T>: `self.last.as_mut()` is an Option holding a reference to the payload of
+                    # self.last; `.unwrap()` / `let Some(r) = ..` of that Option is this reference
+                    if m in ('as_mut', 'as_ref'):
+                        opt_of[t['dest']['local']] = a0['local']
+                    elif m in ('unwrap', 'expect', 'unwrap_unchecked'):
+                        unwrap_of[t['dest']['local']] = a0['local']
         for l in range(1, self.arg_count + 1):
             ndefs[l] += 2
         rm = {}
@@ -480,6 +494,9 @@ class Fn:
                     p = op_place(rv['use'])
                     if p is not None and not p['proj'] and p['local'] in rm:
                         tgt = rm[p['local']]
+                    elif p is not None and p['local'] in opt_of and opt_of[p['local']] in rm and self._is_ref_ty(l) and \
+                            all(isinstance(x, dict) and ('downcast' in x or 'field' in x) for x in p['proj']) and p['proj']:
+                        tgt = rm[opt_of[p['local']]] + ('@Some', '0')       # `let Some(r) = place.as_mut()`
                 elif 'cast' in rv:
                     # unsize / reborrow casts of a reference keep the referent
                     p = op_place(rv['a'])
@@ -487,6 +504,10 @@ class Fn:
                         tgt = rm[p['local']]
                 if tgt is not None:
                     rm[l] = tgt
+                    changed = True
+            for l, o in unwrap_of.items():
+                if l not in rm and ndefs[l] == 2 and o in opt_of and opt_of[o] in rm and self._is_ref_ty(l):
+                    rm[l] = rm[opt_of[o]] + ('@Some', '0')
                     changed = True
         for l in list(rm):
             n = 0
